@@ -5,7 +5,7 @@
    function [pred] / [key] (None = the evaluation raises).  These are premises of the
    theorems, not axioms. *)
 From Coq Require Import List NArith ZArith Bool Permutation Sorted.
-From RPFT Require Import Base.Sexp Base.PyStr Base.ODict Base.Result Gen.Tables Index.DataOps Index.DataOpsFacts.
+From RPFT Require Import Base.Sexp Base.PyStr Base.ODict Base.Result Gen.Tables Index.DataOps Index.DataOpsFacts Index.DataOpsHistFacts.
 Import ListNotations.
 
 (* 1. concat: keys = first occurrences in source order, value = last occurrence, no id twice,
@@ -229,6 +229,79 @@ Theorem C11_step_sort :
 Proof. exact (@step_sort). Qed.
 Print Assumptions C11_step_sort.
 
+(* 5b. HISTORY INDEPENDENCE.  One index row hands the next nothing but the registry; an operation
+   looks only at what is registered under the names it reads ([reads]: every sheet name for a
+   concat, the first one for filter/sort).  So the sheet a row produces is the same in any two
+   states that agree on these names ... *)
+Theorem C11_result_depends_only_on_sources :
+  forall (I R K : Type) (ieqb : I -> I -> bool) (kleb : K -> K -> bool) (rid : R -> I)
+         (raw : str -> bool -> option (list R)) (model_defined : str -> bool)
+         (a b : @state I R) (r : @irow R K),
+    agree_on (reads r) a b ->
+    op_result ieqb kleb rid raw model_defined a r = op_result ieqb kleb rid raw model_defined b r.
+Proof. exact (@op_result_local). Qed.
+Print Assumptions C11_result_depends_only_on_sources.
+
+(* ... in particular in the state that holds nothing but these names (the operation "in isolation") *)
+Theorem C11_result_in_isolation :
+  forall (I R K : Type) (ieqb : I -> I -> bool) (kleb : K -> K -> bool) (rid : R -> I)
+         (raw : str -> bool -> option (list R)) (model_defined : str -> bool)
+         (st : @state I R) (r : @irow R K),
+    op_result ieqb kleb rid raw model_defined (restrict (reads r) st) r = op_result ieqb kleb rid raw model_defined st r.
+Proof. exact (@op_result_isolated). Qed.
+Print Assumptions C11_result_in_isolation.
+
+(* ... and at EVERY position of EVERY chain the sheet registered is the result of that row on
+   the sources registered at that moment, taken alone: nothing computed earlier - for the same
+   row text or any other - is an input; it lands under the row's target and nothing else moves *)
+Theorem C11_history_independence :
+  forall (I R K : Type) (ieqb : I -> I -> bool) (kleb : K -> K -> bool) (rid : R -> I)
+         (raw : str -> bool -> option (list R)) (model_defined : str -> bool)
+         (rows : list (@irow R K)) (st : @state I R) k s',
+    nth_error (scan ieqb kleb rid raw model_defined rows st) k = Some (Ok s') ->
+    exists s r d,
+      run ieqb kleb rid raw model_defined (firstn k rows) st = Ok s /\ nth_error rows k = Some r
+      /\ op_result ieqb kleb rid raw model_defined (restrict (reads r) s) r = Ok (d, next_stamp s')
+      /\ oget str_eqb (reg s') (target r) = Some d
+      /\ (forall name, name <> target r -> oget str_eqb (reg s') name = oget str_eqb (reg s) name).
+Proof. exact (@scan_history_independent). Qed.
+Print Assumptions C11_history_independence.
+
+(* a chain that reads and writes only [names] is a function of the [names]-part of the state it
+   starts in, including whether and with which error it stops *)
+Theorem C11_chain_frame :
+  forall (I R K : Type) (ieqb : I -> I -> bool) (kleb : K -> K -> bool) (rid : R -> I)
+         (raw : str -> bool -> option (list R)) (model_defined : str -> bool)
+         (names : list str) (rows : list (@irow R K)) (a b : @state I R),
+    agree_on names a b -> Forall (confined names) rows ->
+    res_agree names (run ieqb kleb rid raw model_defined rows a) (run ieqb kleb rid raw model_defined rows b).
+Proof. exact (@run_frame). Qed.
+Print Assumptions C11_chain_frame.
+
+(* the minimal-history oracle of the harness: an earlier row whose target nobody reads (and which
+   inferred no row model) can be cut out of the history without changing anything under [names] *)
+Theorem C11_drop_unread_row :
+  forall (I R K : Type) (ieqb : I -> I -> bool) (kleb : K -> K -> bool) (rid : R -> I)
+         (raw : str -> bool -> option (list R)) (model_defined : str -> bool)
+         (names : list str) (r : @irow R K) (post : list (@irow R K)) (st st1 : @state I R),
+    step ieqb kleb rid raw model_defined st r = Ok st1 -> next_stamp st1 = next_stamp st ->
+    ~ In (target r) names -> Forall (confined names) post ->
+    res_agree names (run ieqb kleb rid raw model_defined post st1) (run ieqb kleb rid raw model_defined post st).
+Proof. exact (@drop_unread_row). Qed.
+Print Assumptions C11_drop_unread_row.
+
+(* a row applied again (under whatever new name) yields the same sheet as before if its sources
+   are registered as they were then - and by C11_history_independence the CURRENT registration
+   decides otherwise: this is what a result memo keyed by the source name gets wrong *)
+Theorem C11_repeat_same_sources :
+  forall (I R K : Type) (ieqb : I -> I -> bool) (kleb : K -> K -> bool) (rid : R -> I)
+         (raw : str -> bool -> option (list R)) (model_defined : str -> bool)
+         (st st2 : @state I R) (r : @irow R K) (new : str),
+    is_empty new = is_empty (ir_new_name r) -> agree_on (reads r) st st2 ->
+    op_result ieqb kleb rid raw model_defined st2 (retarget r new) = op_result ieqb kleb rid raw model_defined st r.
+Proof. exact (@repeat_same_sources). Qed.
+Print Assumptions C11_repeat_same_sources.
+
 (* what the harness compares: element k of [scan] is the run of the first k+1 rows *)
 Theorem C11_scan_is_prefix_runs :
   forall (I R K : Type) (ieqb : I -> I -> bool) (kleb : K -> K -> bool) (rid : R -> I)
@@ -284,3 +357,13 @@ Example C11_sort_desc_nonvacuous :
                   (Ex.se, mk_dsheet [(1, 12); (2, 22); (3, 31); (4, 41)] (MExplicit Ex.mM))] 0)%N.
 Proof. exact ex_sort_desc. Qed.
 Print Assumptions C11_sort_desc_nonvacuous.
+
+(* the history a name-keyed memo gets wrong: filter of a sheet that is not registered yet, a concat
+   registered under that very name, the same filter again: the second filter sees the concat *)
+Example C11_repeat_after_first_registration_nonvacuous :
+  exists st, Ex.run [ExH.r_f1; ExH.r_reg; ExH.r_f2] init_state = Ok st
+    /\ ExH.rows_of Ex.sd st = Some [(2, 21)]%N
+    /\ ExH.rows_of Ex.sa st = Some [(1, 12); (2, 22); (3, 31); (4, 41)]%N
+    /\ ExH.rows_of Ex.se st = Some [(3, 31); (4, 41)]%N.
+Proof. exact ex_repeat_after_first_registration. Qed.
+Print Assumptions C11_repeat_after_first_registration_nonvacuous.
